@@ -1442,8 +1442,17 @@ func genScript(r *common.Rand, big bool) *scriptCase {
 	if c.Op == "Z" {
 		// a push whose POST (and sometimes PUT) is challenged, with a token service that needs a few attempts
 		c.TokenPost = r.Chance(1, 2)
-		if r.Chance(3, 4) {
+		if r.Chance(1, 2) {
 			c.Script = append([]behaviour{{Kind: "S", Code: 401, Chal: 2, Read: -1, Lat: int64(r.Intn(10)) * 2}}, c.Script...)
+		} else {
+			// the POST is accepted without credentials: the PUT is challenged and fetches the token itself
+			for i, b := range c.Script {
+				if b.Kind == "S" && b.Code == 202 {
+					rest := append([]behaviour{{Kind: "S", Code: 401, Chal: 2, Read: common.Pick(r, []int{-1, 2}), Lat: int64(r.Intn(10)) * 2}}, c.Script[i+1:]...)
+					c.Script = append(c.Script[:i+1:i+1], rest...)
+					break
+				}
+			}
 		}
 		for i := r.Intn(5); i > 0; i-- {
 			b := genBehaviour(r, false, true)
